@@ -211,6 +211,23 @@ def mutations(rng, g):
             base, parent_r, base_parent = [a, bq], good, [a, bq]
         out.append({"cls": "derived_without_ref_unit", "variant": variant, "lines": std(r), "parent": std(parent_r),
                     "base": base, "base_parent": base_parent})
+    # --- the same unit-attribute defects with foreign attributes (doc comment, lint attribute) interleaved between the unit
+    #     descriptions, as rustfmt-ed and documented real definitions have them
+    def interleave(lines):
+        res, seen, k = [], False, 0
+        for l in lines:
+            if l.lstrip().startswith(("#[unit", "#[ref_unit")):
+                if seen:
+                    res.append(("/// about the next unit", "#[allow(dead_code)]")[k % 2])
+                    k += 1
+                seen = True
+            res.append(l)
+        return res
+    for m in list(out):
+        if m["cls"] in ("two_ref_units", "scale_on_ref_unit", "unit_without_scale", "scale_or_prefix_without_ref_unit", "attribute_arguments"):
+            il = interleave(m["lines"])
+            if il != m["lines"]:
+                out.append(dict(m, variant=m["variant"] + "+foreign_attributes_between", lines=il, parent=interleave(m["parent"])))
     return out
 
 
